@@ -24,6 +24,9 @@ def main():
                 s = jedi.Script(job["text"], path=job.get("path"), project=project)
                 if method in ("get_names",):
                     res = s.get_names(all_scopes=True, definitions=True, references=True)
+                elif method == "goto_follow":
+                    method = "goto"
+                    res = s.goto(line, col, follow_imports=True)
                 else:
                     res = getattr(s, method)(line, col)
                 answers.append({"ok": api.ser_result(method, res)})
